@@ -12,7 +12,7 @@ from simkit.pipe import open_frontend
 
 ID = "C08"
 LEVEL = "exploration"
-RUNS = {"quick": 12000, "thorough": 400000}
+RUNS = {"quick": 60000, "thorough": 1200000}
 RULE = ("(header) first three bytes of streams produced in both modes by the real writer and by the reference encoder "
         "over a header lab (stream-name length, table sizes, logical type, version, first-frame content chosen to land "
         "first-frame and first-row lengths on and around 10, 127/128, 16383/16384 and up to 2^21) must be classified "
